@@ -118,6 +118,7 @@ def dispatch (spec : Bool) (line : String) : String :=
         s!"OK {f} " ++ (if names.isEmpty then "(none)" else ",".intercalate names)
   | ["ERRSTR", n] => Gen.scriptErrString.getD n.toNat! "?"
   | "SESSION" :: a => cmdSession spec false a
+  | "SESSIONF" :: a => cmdSessionG true spec false a
   | "SESSIONV" :: a => cmdSession spec true a
   | [""] => ""
   | w :: a =>
